@@ -45,6 +45,9 @@ fn from_term_kind(kind: &str, t: &OwnedTerm) -> Value {
     let r = catch(|| match kind {
         "date" => ElixirDate::from_term(t).map(|d| json!([d.year, d.month, d.day])),
         "time" => ElixirTime::from_term(t).map(|x| json!([x.hour, x.minute, x.second, x.microsecond_value, x.microsecond_precision])),
+        "naive" => ElixirNaiveDateTime::from_term(t).map(|x| json!([x.year, x.month, x.day, x.hour, x.minute, x.second, x.microsecond_value, x.microsecond_precision])),
+        "datetime" => ElixirDateTime::from_term(t).map(|x| json!([x.year, x.month, x.day, x.hour, x.minute, x.second, x.microsecond_value, x.microsecond_precision,
+                                                                     x.time_zone.as_bytes(), x.zone_abbr.as_bytes(), x.utc_offset, x.std_offset])),
         "range" => ElixirRange::from_term(t).map(|r| json!([r.first.to_string(), r.last.to_string(), r.step.to_string()])),
         _ => None,
     });
@@ -83,7 +86,7 @@ fn wrappers() -> Vec<Value> {
     }
     // date-times with zones, offsets and extreme years
     for (y, us, p, tz, ab, uo, so) in [(2024, 0u32, 0u8, "Etc/UTC", "UTC", 0i32, 0i32), (i32::MAX, 999_999, 6, "Europe/Berlin", "CEST", 3600, 3600), (i32::MIN, 1, 6, "America/St_Johns", "NST", -12600, 0),
-                                       (1, 123_000, 3, "Asia/Kathmandu", "+0545", 20700, 0), (9999, 0, 0, "é/zone", "", i32::MAX, i32::MIN)] {
+                                       (1, 123_000, 3, "Asia/Kathmandu", "+0545", 20700, 0), (9999, 0, 0, "é/zone", "", i32::MAX, i32::MIN), (2024, 0, 0, "Etc/UTC", "UTC", 3600, -1), (2024, 5, 6, "Etc/UTC", "X", 0, 7200)] {
         rt!("datetime", ElixirDateTime::with_timezone(y, 12, 31, 23, 59, 59, us, p, tz, ab, uo, so), ElixirDateTime);
     }
     rt!("datetime", ElixirDateTime::utc(2024, 2, 29, 0, 0, 0, 0, 0), ElixirDateTime);
